@@ -2,6 +2,7 @@
 from __future__ import annotations
 
 import ast
+from ..core import utext
 import re
 
 from .. import eqrules, hashrules, iso
@@ -28,7 +29,7 @@ def check_role_feas(prog: Program, res: Result) -> None:
              "role of {v, mapping[n]} for a covered neighbour n")
     mod = prog.module("algorithms.isomorphism")
     init = prog.fn("algorithms.isomorphism:_sanity_check_and_init")
-    txt = ast.unparse(init.node)
+    txt = utext(init.node)
     for s in ("1", "2"):
         inst = f"_sanity_check_and_init: g{s}_bond_changes from g{s}'s reaction attributes"
         loops = [n for n in ast.walk(init.node) if isinstance(n, ast.For)
@@ -55,7 +56,7 @@ def check_role_feas(prog: Program, res: Result) -> None:
         return
     fi = prog.fn("algorithms.isomorphism:_bond_change_feasibility")
     u, v = fi.params()[:2]
-    t = ast.unparse(fi.node)
+    t = utext(fi.node)
     def req(cond, key, msg):
         inst = f"{fi.short}: {key}"
         if cond:
@@ -69,7 +70,7 @@ def check_role_feas(prog: Program, res: Result) -> None:
         "does not loop over params.g1_nbrhd[u]")
     if loops:
         n = norm(loops[0].target)
-        body = ast.unparse(loops[0])
+        body = utext(loops[0])
         req(re.search(rf"if {n} in (state\.)?mapping", body) is not None,
             "restricted to covered neighbours",
             "not restricted to neighbours that are already mapped")
